@@ -84,9 +84,8 @@ pub fn check_all_caps(ctx: &Ctx, order: u64, tree: &'static Node<'static, RigDev
                         );
                     } else if cr.handle_error_calls != vec![-225] {
                         ctx.violation(order, "error-hook", &format!("`{}` with capacity {cap}: handle_error calls {:?}", esc(msg), cr.handle_error_calls), case);
-                    } else if !full.starts_with(&cr.bytes) {
-                        ctx.violation(order, "garbage-prefix", &format!("`{}` with capacity {cap}: buffer `{}` is not a prefix of the full response `{}`", esc(msg), esc(&cr.bytes), esc(&full)), case);
                     }
+                    // (what the buffer holds after a failed message is not pinned by the property)
                 }
             }
         }
@@ -105,15 +104,23 @@ pub fn run(ctx: &'static Ctx) -> i32 {
     let spec = framing_tree();
     let shared = SharedTree::of(&spec);
     let ks = kinds(true);
-    let max_units = ctx.tier.pick(2, 3);
-    let mut msgs: Vec<Vec<u8>> = enumerate(&ks, max_units, false).into_iter().map(|m| m.text).collect();
+    let max_units = ctx.tier.pick(3, 5);
+    let space = Space::new(ks.len(), max_units);
+    let mut extras: Vec<Vec<u8>> = enumerate(&ks, 0, false).into_iter().map(|m| m.text).collect();
     for t in type_family() {
-        msgs.push(t.as_bytes().to_vec());
+        extras.push(t.as_bytes().to_vec());
     }
-    msgs.sort();
-    msgs.dedup();
-    let total = msgs.len() as u64;
+    let total = space.total() + extras.len() as u64;
+    let msg_at = |i: u64| -> Option<Vec<u8>> {
+        if i < space.total() {
+            let (seq, sep, e) = space.decode(i);
+            build(&ks, &seq, sep, e).map(|m| m.text)
+        } else {
+            Some(extras[(i - space.total()) as usize].clone())
+        }
+    };
     struct Acc {
+        msgs: u64,
         runs: u64,
         exhausted: u64,
     }
@@ -122,27 +129,34 @@ pub fn run(ctx: &'static Ctx) -> i32 {
         total,
         SweepOpts {
             name: "C11 capacity sweep",
-            chunk: 16,
+            chunk: 256,
             hang_secs: 60,
         },
-        || Acc { runs: 0, exhausted: 0 },
+        || Acc { msgs: 0, runs: 0, exhausted: 0 },
         |i, acc: &mut Acc| {
+            let msg = match msg_at(i) {
+                Some(m) => m,
+                None => return,
+            };
+            acc.msgs += 1;
             let mut dev = RigDev::new();
             framing_plans(&mut dev);
-            acc.runs += check_all_caps(ctx, i, shared.node(), &mut dev, &msgs[i as usize], &mut acc.exhausted);
+            acc.runs += check_all_caps(ctx, i, shared.node(), &mut dev, &msg, &mut acc.exhausted);
         },
-        |i| json!({"kind": "cap", "message": esc(&msgs[i as usize]), "cap": -1}),
+        |i| json!({"kind": "cap", "message": esc(&msg_at(i).unwrap_or_default()), "cap": -1}),
     );
+    let mut nmsgs = 0;
     let mut runs = 0;
     let mut exhausted = 0;
     for a in accs {
         runs += a.runs;
+        nmsgs += a.msgs;
         exhausted += a.exhausted;
     }
 
     // allocation counting over error paths: every string in Sigma^<=n on a pull-everything plan
     let alpha: &[u8] = b"AE1 :;,?*#\"'(.+-@\n\x80";
-    let n = ctx.tier.pick(3, 4);
+    let n = ctx.tier.pick(3, 5);
     let tot2 = count_upto(alpha.len() as u64, n);
     let spec2 = TreeSpec::root(vec![
         TreeSpec::leaf("A", 0),
@@ -194,15 +208,15 @@ pub fn run(ctx: &'static Ctx) -> i32 {
     let mut c = cov();
     c.insert("evaluations".into(), json!(runs + alloc_runs));
     c.insert("distinct_nontrivial".into(), json!(exhausted));
-    c.insert("rule".into(), json!(format!("fault enumeration: {} messages (all sequences of 1..{max_units} units over the C10 unit kinds x endings, plus queries returning every formattable type family: block headers, doubled quotes, error items, 64-bit integers, floats incl. NaN/inf sentinels, expression, character, utf8 block) x every ArrayVec<u8,CAP> capacity 0..=|R|+2 where R is the growable-buffer response; CAP >= |R| must give Ok and identical bytes, CAP < |R| must give -225 with exactly one handle_error(-225) and a buffer that is a prefix of R; the harness's counting global allocator is armed around every Node::run (non-allocating rig handlers, ArrayVec logs); plus allocation counting over all {} strings of length <= {n} over a {}-symbol lexical alphabet with a pull-and-convert-everything plan ({} of them fail). Distinct non-trivial = (message, capacity) pairs with CAP < |R|, each a distinct exhaustion point", total, tot2, alpha.len(), alloc_err_runs)));
+    c.insert("rule".into(), json!(format!("fault enumeration: {} messages (all sequences of 1..{max_units} units over the C10 unit kinds x separators x endings, plus queries returning every formattable type family: block headers, doubled quotes, error items, 64-bit integers, floats incl. NaN/inf sentinels, expression, character, utf8 block) x every ArrayVec<u8,CAP> capacity 0..=|R|+2 where R is the growable-buffer response; CAP >= |R| must give Ok and identical bytes, CAP < |R| must give -225 with exactly one handle_error(-225) (the buffer content after a failure is not pinned); the harness's counting global allocator is armed around every Node::run (non-allocating rig handlers, ArrayVec logs); plus allocation counting over all {} strings of length <= {n} over a {}-symbol lexical alphabet with a pull-and-convert-everything plan ({} of them fail). Distinct non-trivial = (message, capacity) pairs with CAP < |R|, each a distinct exhaustion point", nmsgs, tot2, alpha.len(), alloc_err_runs)));
     c.insert("exhaustive".into(), json!(true));
-    c.insert("messages".into(), json!(total));
+    c.insert("messages".into(), json!(nmsgs));
     c.insert("capacity_runs".into(), json!(runs));
     c.insert("exhaustion_points".into(), json!(exhausted));
     c.insert("allocation_counted_runs".into(), json!(runs + alloc_runs));
     c.insert("samples".into(), json!([
         {"message": ":QLON?", "capacities": "0..=|R|+2", "expect": "CAP<|R| -> -225, else identical bytes"},
-        {"message": esc(&msgs[msgs.len() / 2]), "capacities": "0..=|R|+2"}
+        {"message": esc(&msg_at(space.total() / 2 + 1).or(msg_at(0)).unwrap_or_default()), "capacities": "0..=|R|+2"}
     ]));
     ctx.finish(
         "fault_enumeration",
